@@ -377,6 +377,55 @@ def check_open_position_exits(repo, rep):
     rep.floor(rid, 36)
 
 
+def check_liquidate_after_consumed_exit(repo, rep):
+    rid = "C10-R6"
+    rep.rule(rid, "liquidate() always submits its exit: Strategy.liquidate followed by _detect_and_handle_entry_and_exit_modifications is "
+                  "interpreted in the state after a partial exit was FILLED, when the remembered declaration of that kind happens to be "
+                  "equal to what liquidate() declares (same remaining quantity, same price) and no exit order is active any more: "
+                  "exactly one reduce-only MARKET order for the remaining quantity must be submitted (winning position -> the "
+                  "take-profit declaration, losing -> the stop-loss declaration)")
+    S = {"buy": W.enum_value(repo, "sides", "BUY"), "sell": W.enum_value(repo, "sides", "SELL")}
+    T = {k: W.enum_value(repo, "order_types", k) for k in ("MARKET", "LIMIT", "STOP")}
+    for ptype, sg in (("long", 1), ("short", -1)):
+        for winning in (True, False):
+            smp = {"cur": CUR, "P": F(1, 2), "E": (CUR - 10 * sg) if winning else (CUR + 10 * sg), "now": F(0), "t_created": F(0)}
+
+            def mk(dec):
+                it = Interp(repo, stubs=W.base_stubs(), samples=[dict(smp)], nonneg={"cur", "P", "E"}, decisions=dec)
+                w = build(repo, it, sg)
+                st, pos = w["strat"], w["pos"]
+                pos.attrs["pnl"] = (A("cur") - A("E")) * A("P") * R.const(sg)
+                row = lambda *r: Arr2([Arr(list(x)) for x in r])
+                kind = "take_profit" if winning else "stop_loss"
+                # the consumed declaration: (remaining qty, current price) - its order has been executed, nothing is active
+                st.attrs[kind] = row((A("P"), A("cur")))
+                st.attrs["_" + kind] = row((A("P"), A("cur")))
+                ent = row((A("P"), A("E")))
+                st.attrs["buy" if sg > 0 else "sell"] = ent
+                st.attrs["_buy" if sg > 0 else "_sell"] = Arr2([Arr(list(r.items)) for r in ent.rows])
+
+                def thunk(it):
+                    it.call(it.getattr(st, "liquidate"), [], {})
+                    it.call(it.getattr(st, "_detect_and_handle_entry_and_exit_modifications"), [], {})
+                return it, thunk
+            for out in explore(mk, 64):
+                key = f"{ptype}|{'winning' if winning else 'losing'}"
+                if out.kind != "return":
+                    rep.violation(rid, f"liquidate|{key}|raises", f"liquidate() after a consumed identical declaration ({key}) raises {out.value}")
+                    continue
+                subs = submitted(out.interp.w)
+                ok = len(subs) == 1 and subs[0].attrs.get("type") == T["MARKET"] and subs[0].attrs.get("reduce_only") is True \
+                    and subs[0].attrs.get("side") == (S["sell"] if sg > 0 else S["buy"]) \
+                    and isinstance(subs[0].attrs.get("qty"), R) and abs(out.interp.numeric(subs[0].attrs["qty"], smp)) == smp["P"]
+                if not ok:
+                    rep.violation(rid, "liquidate|ignored", f"liquidate() on a {ptype} position ({'winning' if winning else 'losing'}) whose remembered "
+                                                            f"{'take-profit' if winning else 'stop-loss'} declaration equals (remaining qty, current price) submits "
+                                                            f"{[describe(o) for o in subs] or 'nothing'}: the declaration is compared with the remembered one, found unmodified, and the "
+                                                            f"position stays open without an exit")
+                rep.instance(rid, key, {"case": key, "submitted": [describe(o) for o in subs]})
+    rep.floor(rid, 4)
+
+
 def check_close_and_cancel(repo, rep):
     rid = "C10-R6"
     rep.rule(rid, "nothing survives a close: _on_close_position -> _execute_cancel -> broker.cancel_all_orders -> "
@@ -441,6 +490,7 @@ def run(repo: Repo, rep, tier: str):
     rep.guarded(check_modifications, repo, rep)
     rep.guarded(check_open_position_tags, repo, rep)
     rep.guarded(check_open_position_exits, repo, rep)
+    rep.guarded(check_liquidate_after_consumed_exit, repo, rep)
     rep.guarded(check_close_and_cancel, repo, rep)
     rep.undecided_item("one-to-one correspondence of active exits to declaration rows after arbitrary interleavings of user hooks (the replace discipline is decided per call)")
 
